@@ -130,6 +130,7 @@ mod raw {
 
             let mut stdout_ref = self.stdout.as_ref();
             let mut stderr_ref = self.stderr.as_ref();
+            let mut polled = false;
 
             loop {
                 if let Some(size_limit) = size_limit {
@@ -143,8 +144,18 @@ mod raw {
                     break;
                 }
 
+                // A stream that is always ready keeps poll() from ever reporting
+                // a timeout, so after the first round the deadline has to be
+                // checked here as well.
+                if let Some(deadline) = deadline {
+                    if polled && Instant::now() >= deadline {
+                        return Err(io::Error::new(io::ErrorKind::TimedOut, "timeout"));
+                    }
+                }
+
                 let (in_ready, out_ready, err_ready) =
                     maybe_poll(self.stdin.as_ref(), stdout_ref, stderr_ref, deadline)?;
+                polled = true;
                 if !in_ready && !out_ready && !err_ready {
                     return Err(io::Error::new(io::ErrorKind::TimedOut, "timeout"));
                 }
